@@ -645,6 +645,71 @@ def history_case(ctx, case):
                           dict(kind="history", theory=name, case=case, step="stacked", deviation=d))
 
 
+def siblings_case(ctx, case):
+    """the SAME sphere looked at through several lenses one after the other (other acceptance angle, other quadrature order,
+    other interpolation settings - one-factor siblings of one request), each compared with the converged Lens(Mie) and with
+    AberratedMieLens(zeros): what a cache keyed on the particle alone would confuse"""
+    import numpy as np
+    from holopy.scattering import Sphere, Mie, MieLens
+    from holopy.scattering.theory import Lens
+    from holopy.scattering.theory.mielens import AberratedMieLens
+    n, r = case["m"] * N_MED, case["x"] / K
+    sph = Sphere(n=n, r=r, center=(0.0, 0.0, case["kz"] / K))
+    pol = (math.cos(case["g"]), math.sin(case["g"]))
+    krho, phi = np.array(case["krho"]), np.array(case["phi"])
+    x, y = krho * np.cos(phi) / K, krho * np.sin(phi) / K
+    for i, (la, kw) in enumerate(case["lenses"]):
+        a = field(MieLens(lens_angle=la, calculator_accuracy_kwargs=kw), sph, x, y, pol)
+        z = field(AberratedMieLens([0.0, 0.0], lens_angle=la, calculator_accuracy_kwargs=kw), sph, x, y, pol)
+        with warnings.catch_warnings():
+            warnings.simplefilter("ignore")
+            b = field(Lens(la, Mie(False, False), quad_npts_theta=case["nq"], quad_npts_phi=case["nq"]), sph, x, y, pol)
+        scale = max(1.0, float(np.abs(b).max()))
+        d1, d2 = float(np.abs(a - b).max()) / scale, float(np.abs(a - z).max()) / scale
+        ctx.explored += 1
+        ctx.count("siblings:lens")
+        ctx.nontriv(("siblings", round(la, 3), str(sorted(kw.items()))))
+        meta = dict(kind="siblings", case=case, step=i, lens_angle=la, accuracy=kw, deviation=[d1, d2])
+        if not d1 <= T_ML_LENS:
+            ctx.violation("siblings:mielens_vs_lens", "MieLens(lens_angle=%.4g, %r), computed after the same sphere through other lenses, "
+                          "differs from the converged Lens(Mie) by %.3g" % (la, kw, d1), meta)
+        if not d2 <= T_ABERR0:
+            ctx.violation("siblings:aberrated:zero", "AberratedMieLens(zeros) differs from MieLens (lens_angle=%.4g, %r) by %.3g in a series "
+                          "over one sphere" % (la, kw, d2), meta)
+
+
+def big_detector_case(ctx, case):
+    """a detector of several thousand pixels with a generous pupil quadrature (tens of millions of integrand values):
+    Lens(Mie) against MieLens pixel by pixel, and a few pixels again alone"""
+    import numpy as np
+    from holopy.scattering import Sphere, Mie, MieLens
+    from holopy.scattering.theory import Lens
+    nside, nq, la = case["nside"], case["nq"], case["la"]
+    sph = Sphere(n=case["m"] * N_MED, r=case["x"] / K, center=(0.0, 0.0, case["kz"] / K))
+    g = (np.arange(nside) - (nside - 1) / 2.0) * case["spacing"]
+    X, Y = np.meshgrid(g, g, indexing="ij")
+    x, y = X.ravel(), Y.ravel()
+    pol = (math.cos(case["g"]), math.sin(case["g"]))
+    with warnings.catch_warnings():
+        warnings.simplefilter("ignore")
+        b = field(Lens(la, Mie(False, False), quad_npts_theta=nq, quad_npts_phi=nq), sph, x, y, pol)
+        idx = case["alone"]
+        bs = field(Lens(la, Mie(False, False), quad_npts_theta=nq, quad_npts_phi=nq), sph, x[idx], y[idx], pol)
+    a = field(MieLens(lens_angle=la), sph, x, y, pol)
+    scale = max(1.0, float(np.abs(a).max()))
+    d = float(np.abs(a - b).max()) / scale
+    db = float(np.abs(b[idx] - bs).max()) / scale
+    ctx.explored += 1
+    ctx.count("big-detector:%dx%d:q%d" % (nside, nside, nq))
+    ctx.nontriv(("big", nside, nq))
+    meta = dict(kind="big-detector", case=case, deviation=[d, db], zeros=int(np.sum(np.abs(b).sum(axis=1) == 0)))
+    if not d <= T_ML_LENS * 10:
+        ctx.violation("big-detector:mielens_vs_lens", "on a %dx%d detector with a %dx%d pupil quadrature Lens(Mie) differs from MieLens by "
+                      "%.3g (%d pixels are exactly 0)" % (nside, nside, nq, nq, d, meta["zeros"]), meta)
+    if not db <= 1e-10:
+        ctx.violation("big-detector:batch", "Lens(Mie) values depend on how many pixels are computed in one call (%.3g)" % db, meta)
+
+
 def stage_history(ctx):
     rng = ctx.subrng("history")
     for kcase in range(ctx.n(3, 16)):
@@ -654,6 +719,19 @@ def stage_history(ctx):
                     cx=rng.uniform(-2, 2), cy=rng.uniform(-2, 2), nq=rng.choice([40, 60]),
                     zs=[z0, z0 + rng.uniform(0.5, 3.0), -z0, z0 - rng.uniform(0.5, 3.0)])
         history_case(ctx, case)
+    for kcase in range(ctx.n(2, 8)):
+        la0 = rng.uniform(0.5, 0.7)
+        lenses = [(la0, {}), (la0 * 1.5, {}), (la0, dict(quad_npts=160)), (la0 * 0.7, dict(interpolate_integrals=False)),
+                  (la0, dict(interpolate_integrals=True, interpolator_window_size=16.0, interpolator_degree=30)), (la0 * 1.5, {})]
+        rng.shuffle(lenses)
+        siblings_case(ctx, dict(m=rng.uniform(1.1, 1.3), x=rng.uniform(2.0, 8.0), kz=rng.uniform(-60, 90), g=rng.uniform(-math.pi, math.pi),
+                                krho=[rng.uniform(0, 45) for _ in range(6)], phi=[rng.uniform(0, 2 * math.pi) for _ in range(6)],
+                                nq=130, lenses=lenses))
+    for kcase in range(ctx.n(1, 3)):
+        nside, nq = rng.choice([(72, 64), (66, 63)])
+        big_detector_case(ctx, dict(nside=nside, nq=nq, la=rng.uniform(0.5, 0.8), spacing=0.09, m=rng.uniform(1.1, 1.3),
+                                    x=rng.uniform(2.0, 6.0), kz=rng.uniform(20, 70), g=rng.uniform(-math.pi, math.pi),
+                                    alone=sorted(rng.sample(range(nside * nside), 5))))
 
 
 def stage_cutoff(ctx):
@@ -775,6 +853,10 @@ def replay(ctx, data):
     d = data["data"]
     if d.get("kind") == "history" and "case" in d:
         history_case(ctx, d["case"])
+    elif d.get("kind") == "siblings" and "case" in d:
+        siblings_case(ctx, d["case"])
+    elif d.get("kind") == "big-detector" and "case" in d:
+        big_detector_case(ctx, d["case"])
     elif d.get("kind") == "explore" and "case" in d:
         out = explore_case(ctx, d["case"], record=False)
         print("replay: deviations " + ", ".join("%s=%.3g" % kv for kv in sorted(out.items())))
